@@ -12,12 +12,14 @@ TECHNIQUE = "stateless exhaustive enumeration of event histories (mc.choice), ex
 RULE = ("every history of <= L harness events {clock.advance(a), fire the outstanding Deferred ok / failed, stop(), reset()} "
         "on a real LoopingCall (plain and withCount) whose clock is task.Clock, for every (interval, now, withCount, start "
         "offset) and every per-call behaviour of the function {return, return unfired Deferred, raise, stop() own loop and "
-        "return, return fired Deferred, return failed Deferred, stop() and return unfired Deferred, ...}; all values dyadic so "
+        "return, return fired Deferred, return failed Deferred, stop() and return unfired Deferred, ...} [all enumerated "
+        "completely], combined with at most one slow call per execution: a returning call advances the clock by 0.25 / 1 / 2.5 "
+        "intervals while it runs (it counts as one of the L events); all values dyadic so "
         "float arithmetic is exact. non-trivial = distinct (config, call instants, completion instants, counts, ending) in which "
         "a call was delivered late by a clock jump, a Deferred spanned a boundary, a completion fell exactly on a boundary, a "
         "count > 1 was passed, reset() moved the origin, or the loop ended by stop / failure")
 BOUNDS = {
-    "quick": "L=4 events; intervals {0.5, 1.5}; advances {0.25, 0.5, 1.5, 2.5, 7}; start offsets {0, 0.75}; 7 behaviours per call",
+    "quick": "L=4 events; intervals {0.5, 1.5}; advances {0.25, 0.5, 1.5, 2.5, 7}; start offsets {0, 0.75}; 7 behaviours per call; <= 1 slow call {0.25, 1, 2.5 intervals}",
     "thorough": "L=5 events over the quick alphabet, plus L=4 events with intervals {0.5, 1.5, 2}; advances {0.25, 0.5, 1, 1.5, 2.5, 7}; "
                 "start offsets {0, 0.75}; 9 behaviours per call (adds: stop() then raise, reset() own loop then return)",
 }
@@ -35,25 +37,26 @@ MIN = {"quick": {"evaluations": 780000, "nontrivial": 63000, "outcomes": 7},
        "thorough": {"evaluations": 14800000, "nontrivial": 480000, "outcomes": 7}}
 
 _Q = dict(L=4, intervals=[0.5, 1.5], advances=[0.25, 0.5, 1.5, 2.5, 7.0], offsets=[0.0, 0.75],
-          behs=["ret", "defer", "raise", "stopself", "succeed", "fail", "stopdefer"])
+          behs=["ret", "defer", "raise", "stopself", "succeed", "fail", "stopdefer"], slow=[0.25, 1.0, 2.5])
 TIERS = {
     "quick": [_Q],
     "thorough": [dict(_Q, L=5),
                  dict(L=4, intervals=[0.5, 1.5, 2.0], advances=[0.25, 0.5, 1.0, 1.5, 2.5, 7.0], offsets=[0.0, 0.75],
-                      behs=["ret", "defer", "raise", "stopself", "succeed", "fail", "stopdefer", "stopraise", "resetself"])],
+                      behs=["ret", "defer", "raise", "stopself", "succeed", "fail", "stopdefer", "stopraise", "resetself"],
+                      slow=[0.25, 1.0, 2.5])],
 }
 
 
 def q4(x):
-    """x in exact quarter units (every time value in the alphabet is a multiple of 0.25)."""
-    n = int(x * 4)
-    if n != x * 4:
-        raise ValueError("not a multiple of 0.25: %r" % (x,))
+    """x in exact 1/16 units (every time value in the alphabet, including the in-call advances, is a multiple of 1/16)."""
+    n = int(x * 16)
+    if n != x * 16:
+        raise ValueError("not a multiple of 1/16: %r" % (x,))
     return n
 
 
 def nints(elapsed, interval):
-    """floor(elapsed / interval), exactly (integer arithmetic on quarter units)."""
+    """floor(elapsed / interval), exactly (integer arithmetic on 1/16 units)."""
     return q4(elapsed) // q4(interval)
 
 
@@ -69,6 +72,9 @@ def quiet():
         globalLogBeginner.beginLoggingTo([lambda e: None], redirectStandardIO=False, discardBuffer=True)
 
 
+SLOW_BOUND = 1      # the only non-free choice is "this returning call is slow": at most one slow call per execution
+
+
 class Boom(Exception):
     pass
 
@@ -76,10 +82,11 @@ class Boom(Exception):
 class H:
     """Harness + reference model for one execution."""
 
-    def __init__(self, cfg, ch, behs):
+    def __init__(self, cfg, ch, behs, slow=()):
         self.interval, self.now, self.wc, self.offset = cfg
         self.ch = ch
         self.behs = behs
+        self.slow = list(slow)
         self.bad = []           # (sig, detail)
         self.calls = []         # (instant, count)
         self.completions = []
@@ -97,6 +104,7 @@ class H:
         self.lc = None
         self.clock = None
         self.limit = 12
+        self.budget = 0
 
     def flag(self, sig, detail):
         if not any(s == sig for s, _ in self.bad):
@@ -145,8 +153,9 @@ class H:
         first = not self.calls
         if len(self.completions) < len(self.calls) and self.outstanding is None:
             # previous call completed synchronously during this same real operation
-            self.completed(self.calls[-1][0], timer=False)
+            self.completed(self.sync_done, timer=False)
         self.calls.append((t, count))
+        self.sync_done = t      # instant at which this call completes if it returns synchronously
         if len(self.calls) > self.limit:
             self.failed = True
             raise Boom("runaway")
@@ -192,6 +201,17 @@ class H:
                                       t, [c for _, c in self.calls], self.count_sum, elapsed, self.start0, self.interval, self.now))
         b = self.ch.pick(self.behs, "behaviour", free=True)
         self.lastbeh = b
+        sl = self.ch.choose(1 + len(self.slow), "slow-call") if b == "ret" and self.slow and self.budget > 0 else 0
+        if sl:
+            self.budget -= 1
+            # (deviation, <= SLOW_BOUND per execution) the function itself takes time: the controlled clock moves on while it
+            # runs (no call of the loop is pending meanwhile, so the nested Clock.advance has nothing to run); it completes
+            # at the later instant
+            self.clock.advance(self.slow[sl - 1] * self.interval)
+            self.sync_done = self.clock.seconds()
+            self.flags.add("slow-call" if nints(self.sync_done - self.start0, self.interval) == nints(t - self.start0, self.interval)
+                           else "slow-call-spans-boundary")
+            return None
         if b == "ret":
             return None
         if b == "raise":
@@ -225,7 +245,7 @@ class H:
     def after_call_returned(self):
         """Called by the driver after any real operation: account for synchronous completion."""
         if len(self.completions) < len(self.calls) and self.outstanding is None:
-            self.completed(self.calls[-1][0])
+            self.completed(self.sync_done)
 
     # -- driver ----------------------------------------------------------
     def start(self):
@@ -329,12 +349,14 @@ def make_run(cfg, tier, part=0):
 
     def run(ch):
         from twisted.internet.defer import AlreadyCalledError
-        h = H(cfg, ch, behs)
+        h = H(cfg, ch, behs, p.get("slow", ()))
         try:
+            h.budget = L        # harness events left; a slow call (which moves the clock like an advance) uses one up
             h.start()
-            for _ in range(L):
+            while h.budget > 0:
                 if not h.running() and h.outstanding is None:
                     break
+                h.budget -= 1
                 ev = ch.pick(h.menu(advances), "event", free=True)
                 h.do(ev)
             h.end = h.finish()
@@ -371,7 +393,7 @@ def run_shard(shard, tier, seed):
     cfg, k, part = tuple(shard[0]), shard[1], shard[2]
     st = Stats()
     run = make_run(cfg, tier, part)
-    for ch, h in explore(run, bound=None, prefix=(k,)):
+    for ch, h in explore(run, bound=SLOW_BOUND, prefix=(k,)):
         st.evaluations += 1
         st.outcome(h.end)
         for fl in h.flags:
